@@ -40,7 +40,7 @@ void *nondet_ptr(void);
  * v of an input in the counterexample trace as an assignment IN_<name> = v
  * (always true, no effect on the proof).  bin/check hands the IN_* values of a
  * failing obligation to the native replay driver. */
-#define VERIF_OBS_DECL(name) static inline _Bool verif_obs_##name(long v) { long IN_##name = v; return 1; }
+#define VERIF_OBS_DECL(name) static inline _Bool verif_obs_##name(long IN_##name) { return 1; }
 #define OBS(name, v) verif_obs_##name((long)(v))
 
 #endif
